@@ -100,6 +100,10 @@ fn replay(prop: &str, case: &Value, rep: &mut Report) {
                 other => rep.violation("make_all_uci-panic", format!("{:?}", other), case.clone()),
             }
         }
+        ("c13", "c13-foreign") => {
+            let o = Pos::from_fen(case["other"].as_str().unwrap()).unwrap();
+            c13::foreign_handles(&pos_of(case), &o, rep);
+        }
         ("c13", _) => c13::san_side_effects(&pos_of(case), rep, &mut rng),
         ("c14", _) => {
             let mut foreign = Vec::new();
